@@ -28,6 +28,7 @@ import (
 	"fmt"
 	"strings"
 	"sync"
+	"time"
 
 	proto "github.com/kubewharf/kubebrain-client/api/v2rpc"
 
@@ -47,6 +48,15 @@ type injectBackend struct {
 	mu   sync.Mutex
 	next *scriptedAns
 	last string
+	// watchDelay slows down the handler's registration with the backend (cfg watchdelay=<ms>)
+	watchDelay time.Duration
+}
+
+func (b *injectBackend) Watch(ctx context.Context, prefix string, revision uint64) (<-chan []*proto.Event, error) {
+	if b.watchDelay > 0 {
+		time.Sleep(b.watchDelay)
+	}
+	return b.Backend.Watch(ctx, prefix, revision)
 }
 
 func newInjectBackend(b backend.Backend) *injectBackend {
